@@ -8,7 +8,7 @@
     R4..R7 and RHL, transmitter S2,S3,X2,X3,X4,X7,X8 and XHL, application a_locked).
     Proofs: Runner/LockDiscipline.v.  Not modelled: scheduler fairness, real time. *)
 From Coq Require Import Arith Bool List.
-From CanVerif Require Import Runner.Lts Runner.LockDiscipline.
+From CanVerif Require Import Runner.Lts Runner.RunModel Runner.LockDiscipline Runner.Protocol Runner.RunLts Runner.RunProofs.
 Import ListNotations.
 
 (** I1: in every reachable state the mutex owner is exactly the thread inside a critical section *)
@@ -93,6 +93,24 @@ Theorem C13_accepted_trace_raw_discipline : forall cfg tr,
   accepts cfg tr = true -> raw_discipline None tr 0 = None.
 Proof. exact accepted_raw_discipline. Qed.
 Print Assumptions C13_accepted_trace_raw_discipline.
+
+(** whatever a frame with a known ID looks like: a frame the message does not accept - remote,
+    standard/extended mismatch, wrong length (shape_accepts msg_ext msg_len f = Nat.eqb (sh_len f)
+    msg_len && negb (sh_remote f) && Bool.eqb (sh_extended f) msg_ext, the checks of the generated
+    UnmarshalFrame) - goes through the same critical section as every other frame: hook lookup,
+    receive time and the failing unmarshal all between Lock and Unlock, no hook call, error return
+    ([rx_trace]: the events RunMessageReceiver performs, RunModel.v; accepted by the LTS: C14) *)
+Theorem C13_rejected_known_frame_locked : forall t id e l f hook_ok rest end_ok,
+  shape_accepts e l f = false ->
+  rx_trace t (rframe_of_shape id true e l f hook_ok :: rest) end_ok =
+  [Recv t true; RxFrame t; Lookup t true; Lock t; Access t WHook; Access t WTime;
+   Access t (WUnmarshal false); Unlock t; Done t false].
+Proof. exact rejected_known_frame_trace. Qed.
+Print Assumptions C13_rejected_known_frame_locked.
+
+Theorem C13_remote_frame_not_accepted : forall e l f, sh_remote f = true -> shape_accepts e l f = false.
+Proof. exact remote_not_accepted. Qed.
+Print Assumptions C13_remote_frame_not_accepted.
 
 (** non-vacuity: a receiver (1), a transmitter (2) and an application thread (3) interleaved -
     one received frame with a hook that takes the lock, one event transmit whose hook mutates the
